@@ -130,7 +130,8 @@ def run_case(case: dict) -> dict:
     cfg = case["cfg"]
     objs = {}
     for idx, sub, n in cfg["map"] + case["dev0"]["ents"]:
-        objs.setdefault(idx, {})[sub] = n
+        d = objs.setdefault(idx, {})
+        d[sub] = max(n, d.get(sub, 0))      # an object mapped twice: its type is as long as the longest mapping
     od = build_od(com_idx, map_idx, present, objs)
     ev = []
     dev = StrictDevice(com_idx, map_idx, case["dev0"], ev)
